@@ -741,7 +741,9 @@ func (rp *replayer) runGroup(g *group, gi int, maxPairs int) {
 			default:
 				rp.classes["outside the classes of the settle law (conformance and flush only)"]++
 			}
-			rp.runNet(g)
+			if !twinOnly {
+				rp.runNet(g)
+			}
 		}
 		for i := range g.hists {
 			h := &g.hists[i]
